@@ -1,7 +1,8 @@
 (* Shared by Corr/C07.v, Corr/C05.v, Corr/C02.v: the scripted generators the harness registers with gengo
    (as state machines of the model), the instantiation of [env] from per-case tables, and the comparison of
    a model run with an observed run. *)
-Require Export Gengo.Base.Bytes Gengo.Model.Pipeline.
+Require Export Gengo.Base.Bytes Gengo.Model.Pipeline Gengo.Model.Whole.
+Require Gengo.Model.SumFile.
 
 Definition mk_ty (n : bytes) (k : tykind) (t : tags) : tyinfo := {| ty_name := n; ty_kind := k; ty_tags := t |}.
 Definition mk_pkg (path dir name : bytes) (files : list bytes) (tys : list tyinfo) (hash : bytes) : pkginfo :=
@@ -12,11 +13,14 @@ Definition mk_world (pkgs : list pkginfo) (direct : list bytes) : world :=
 
 (* ---------- scripted generators (harness/internal/pipe: state.call) ---------- *)
 
+(* a scripted callback: what it renders, what it returns, the callbacks it registers itself when it runs *)
+Inductive sdefer := SD (body : bytes) (res : gresult) (nested : list sdefer).
 Record sstep := mk_step {
-  ss_body : bytes; ss_res : gresult; ss_count : bool; ss_helper : bool; ss_defers : list (bytes * gresult) }.
+  ss_body : bytes; ss_res : gresult; ss_count : bool; ss_helper : bool; ss_defers : list sdefer }.
 Record sgen := mk_sgen { sg_name : bytes; sg_alias : bool; sg_steps : list ((bytes * bytes) * sstep) }.
 
-Record sstate := { st_count : nat; st_helper : bool; st_defers : list (bytes * gresult) }.
+(* st_defers: every callback registered so far (c.defers); the model knows a callback by its index *)
+Record sstate := { st_count : nat; st_helper : bool; st_defers : list sdefer }.
 
 Definition empty_step : sstep := mk_step [] RNil false false [].
 
@@ -49,9 +53,12 @@ Definition script_gen (g : sgen) : generator := {|
         so_defers := seq (List.length (st_defers st)) (List.length (ss_defers step)) |});
   g_defer := fun st _ i =>
     match nth_error (st_defers st) i with
-    | Some (b, r) => (st, {| so_body := b; so_res := r; so_defers := [] |})
+    | Some (SD b r nested) =>
+        ({| st_count := st_count st; st_helper := st_helper st; st_defers := st_defers st ++ nested |},
+         {| so_body := b; so_res := r; so_defers := seq (List.length (st_defers st)) (List.length nested) |})
     | None => (st, {| so_body := []; so_res := RNil; so_defers := [] |})
-    end
+    end;
+  g_fuel := 1000   (* the scripted callback forests are finite and small *)
 |}.
 
 (* ---------- env from tables ---------- *)
@@ -62,9 +69,9 @@ Fixpoint tbl_fmt (tbl : list (bytes * option bytes)) (src : bytes) : option byte
   | (k, v) :: r => if bytes_eqb k src then v else tbl_fmt r src
   end.
 
-(* the harness' modules enable a generator for a type with the bare tag "+gengo:<name>" on the declaration *)
-Definition simple_enabled (name : bytes) (_ : pkginfo) (t : tyinfo) : bool :=
-  existsb (fun kv => bytes_eqb (fst kv) (bs "gengo:" ++ name)) (ty_tags t).
+(* The harness dumps, for every type, the gengo:* tags of its declaration as gengo's own Package.Doc reports them
+   (key, values); the modules have neither package-level nor global tags.  The decision "enabled" is taken by the
+   composed model: Dispatch's IsGeneratorEnabled on merge(Globals = [], package tags = [], declaration tags). *)
 
 Definition is_some {A} (o : option A) : bool := match o with Some _ => true | None => false end.
 
@@ -75,14 +82,10 @@ Definition order_bad (bad_last : bool) (tbl : list (bytes * option bytes)) (p : 
   let '(ok, bad) := partition good gfs in
   if bad_last then ok ++ bad else bad ++ ok.
 
-Definition case_env (fixed bad_last : bool) (tbl : list (bytes * option bytes)) : env := {|
-  e_fmt := tbl_fmt tbl;
-  e_sum_load := sumfile_load;
-  e_sum_bytes := sumfile_bytes;
-  e_enabled := simple_enabled;
-  e_order := order_bad bad_last tbl;
-  e_fixed := fixed
-|}.
+(* THE COMPOSED MODEL (Model/Whole.v): the byte-level gengo.sum of Model/SumFile.v, the enabling rule of
+   Model/Dispatch.v; the formatter is the per-case table of what the reference formatter answered *)
+Definition case_env (fixed bad_last : bool) (tbl : list (bytes * option bytes)) : env :=
+  whole_env_fx fixed (tbl_fmt tbl) (order_bad bad_last tbl) rank0 [].
 
 (* The code under check is the repaired one (fix #26 applied): models run with fixed = true. *)
 Definition code_fixed : bool := true.
@@ -171,7 +174,8 @@ Definition has_direct (w : world) : bool := existsb (is_direct w) (w_pkgs w).
 Definition spec_cached (a : args) (w : world) (before : fs) (p : pkginfo) : bool :=
   a_all a && negb (a_force a) && has_direct w &&
   match fs_lookup (sum_path w) before with
-  | Some b => bytes_eqb (sum_get (sumfile_load b) (pk_path p)) (pk_hash p)
+  | Some b => negb (is_nil (pk_hash p))
+              && bytes_eqb (SumFile.sum_sum (SumFile.sumfile_load b) (pk_path p)) (pk_hash p)
   | None => false
   end.
 Definition spec_processed (a : args) (w : world) (before : fs) (p : pkginfo) : bool :=
